@@ -1331,7 +1331,8 @@ def run(ctx):
         if e["e"] in ("wif",):
             e["payload"][-2] ^= 1
         elif e["e"] == "secenc":
-            e["b"][0] ^= 1
+            # the first observation of a 256-bit key's SEC form is learned, not computed: contradict it
+            m["ev"].append(dict(e, b=[e["b"][0] ^ 1] + list(e["b"][1:])))
         elif e["e"] == "ident":
             m["ev"].append(dict(e, h160=[x ^ 1 for x in e["h160"]]))
         elif e["e"] == "new":
@@ -1349,5 +1350,6 @@ def run(ctx):
         muts.append(m)
     orig = [picks[k] for k in sorted(picks)]
     rej = validate_traces(ctx, [("p43", orig + muts)])[0]
+    ctx.log("trace self-test: kinds %s, rejected %s of %d..%d" % (sorted(picks), rej, len(orig), len(orig) + len(muts) - 1))
     ctx.selftest("trace_rejects_corrupted_field", len(muts) == 5 and sorted(i for i, _ in rej) == list(range(len(orig), len(orig) + len(muts))))
     ctx.exhaustive = not q
